@@ -1965,6 +1965,9 @@ def replay_finding(ctx, finding):
             return True          # (the replay needs a gigabyte of memory: thorough tier only)
         r = _replay_http({"method": "GET", "path": w["path"], "query": [["drm", "all"], [w["name"], "a" * w["size"]]]})
         return bool(r["fails"])
+    if finding.get("class") == "moof-without-mfhd":
+        r = _replay_mp4({"target": "index", "desc": w["desc"]})
+        return bool(r.get("fails"))
     if finding.get("class") == "tiny-segments-timeline":
         if not ctx.thorough:
             return True          # (the replay waits for the 20 s budget twice: thorough tier only)
@@ -1995,12 +1998,43 @@ def _mdhd_timescale(data: bytes):
     return int.from_bytes(data[off:off + 4], "big")
 
 
+def _moof_without_mfhd(data: bytes) -> bool:
+    """box headers only: some top-level moof has no mfhd child"""
+    pos = 0
+    while pos + 8 <= len(data):
+        size = int.from_bytes(data[pos:pos + 4], "big")
+        typ = data[pos + 4:pos + 8]
+        if size < 8 or pos + size > len(data):
+            break
+        if typ == b"moof":
+            kids, q = [], pos + 8
+            while q + 8 <= pos + size:
+                ks = int.from_bytes(data[q:q + 4], "big")
+                kids.append(data[q + 4:q + 8])
+                if ks < 8:
+                    break
+                q += ks
+            if b"mfhd" not in kids:
+                return True
+        pos += size
+    return False
+
+
 def matches_finding(finding, failure):
     cls = finding.get("class")
     if cls == "mps-megabyte-value":
         return (failure.get("kind") == "http" and failure.get("status") == 0
                 and str(failure.get("path", "")).startswith("/mps/")
                 and any(len(v) >= 1 << 20 for _k, v in (failure.get("query") or [])))
+    if cls == "moof-without-mfhd":
+        if failure.get("kind") != "mp4" or failure.get("step") not in ("events-first", "events-last", "media1") \
+                or "status 500" not in str(failure.get("why")):
+            return False
+        import c16_mp4
+        try:
+            return _moof_without_mfhd(c16_mp4.rebuild(failure["desc"]))
+        except Exception:      # noqa: BLE001
+            return False
     if cls == "tiny-segments-timeline":
         if failure.get("kind") != "mp4" or failure.get("step") not in ("live-timeline", "live-patch", "patch") \
                 or "no answer within" not in str(failure.get("why")):
